@@ -2574,7 +2574,9 @@ def c07(tier):
         xs = [x_ for x_, ch in enumerate(D[y]) if ch != " "]
         opened = "\n".join((x[:xs[-1]] + " " + x[xs[-1] + 1:] if i_ == y else x).rstrip() for i_, x in enumerate(D))
         top = "\n".join((x[:-1] if i_ == 0 else x).rstrip() for i_, x in enumerate(D))
-        hist += [full] + [opened, top] * (700 if tier == "quick" else 3000)
+        # (one near miss at a time, many times in a row: a different near miss in between would refresh whatever is kept)
+        nrep = 2500 if tier == "quick" else 12000
+        hist += [full] + [opened] * nrep + [full] + [top] * nrep
     hreqs = [{"id": len(allreqs) + i, "input": t, "entry": "to_svg"} for i, t in enumerate(hist)]
     for rq in hreqs:
         allreqs[rq["id"]] = rq
